@@ -16,7 +16,7 @@ package cluster
 //@    && (forall id string {s.nodes[id]} :: id in s.nodes ==> s.nodes[id] != nil && s.nodes[id].ID == id && allocated(s.nodes[id]) && allocated(s.nodes[id].Endpoints))
 //@    && s.nodes[s.localID].Status == NodeStatusActive
 //@    && (forall e string :: s.nodes[s.localID].Endpoints[e] >= 0)
-//@    && (forall id string {s.nodes[id]} :: id in s.nodes && id != s.localID ==> s.nodes[id].Endpoints == nil || s.nodes[id].Endpoints != s.nodes[s.localID].Endpoints)
+//@    && (forall a string, b string {s.nodes[a], s.nodes[b]} :: a in s.nodes && b in s.nodes && a != b && s.nodes[a].Endpoints != nil ==> s.nodes[a].Endpoints != s.nodes[b].Endpoints)
 
 // counted(ep): the number of local upstreams the routing table records for ep.
 //@ pure localCount(s *State, ep string) int = s.nodes[s.localID].Endpoints[ep]
@@ -123,20 +123,24 @@ package cluster
 // epCount(n, e): the upstream count node n advertises for endpoint e (0 when absent).
 //@ pure epHas(n *Node, e string) bool = n.Endpoints != nil && e in n.Endpoints
 //@ pure epCount(n *Node, e string) int = epHas(n, e) ? n.Endpoints[e] : 0
+// the endpoint map of remote node id (nil when there is no such node)
+//@ pure remoteMap(s *State, id string) map[string]int = (id in s.nodes && id != s.localID) ? s.nodes[id].Endpoints : nil
 
 //@ contract RemoteEndpointSubscriber
 //@   trusted function-typed contract: what State requires of the callbacks registered with OnRemoteEndpointUpdate (none is registered outside tests)
 //@   requires[unlocked] !held(State.mu)
 
 //@ contract (*State).AddNode
+//@   ensures[inv] stInv(s)
 //@   serves C04 C20
 //@   requires[node] node != nil && allocated(node) && allocated(node.Endpoints)
-//@   requires[unshared] node.Endpoints == nil || node.Endpoints != s.nodes[s.localID].Endpoints
+//@   requires[unshared] node.Endpoints == nil || (forall id string {s.nodes[id]} :: id in s.nodes ==> s.nodes[id].Endpoints != node.Endpoints)
 //@   modifies entries(s.nodes)
 //@   ensures[added] node.ID != s.localID ==> node.ID in s.nodes && s.nodes[node.ID] == node
 //@   ensures[others] forall id string :: id != node.ID || id == s.localID ==> (id in s.nodes) == old(id in s.nodes) && s.nodes[id] == old(s.nodes[id])
 
 //@ contract (*State).RemoveNode
+//@   ensures[inv] stInv(s)
 //@   serves C04 C11 C20
 //@   modifies entries(s.nodes)
 //@   ensures[result] result == (id != s.localID && old(id in s.nodes))
@@ -144,6 +148,7 @@ package cluster
 //@   ensures[others] forall o string :: o != id || !result ==> (o in s.nodes) == old(o in s.nodes) && s.nodes[o] == old(s.nodes[o])
 
 //@ contract (*State).UpdateRemoteStatus
+//@   ensures[inv] stInv(s)
 //@   serves C04 C11 C20
 //@   modifies s.nodes[id].Status
 //@   ensures[result] result == (id != s.localID && id in s.nodes)
@@ -152,10 +157,11 @@ package cluster
 //@   ensures[nodes] s.nodes == old(s.nodes)
 
 //@ contract (*State).updateRemoteEndpointLocked
+//@   ensures[maps] forall o string :: o in s.nodes ==> s.nodes[o].Endpoints == old(s.nodes[o].Endpoints) || fresh(s.nodes[o].Endpoints)
 //@   serves C04 C20
 //@   requires[guard] held(State.mu)
 //@   requires[inv] stInv(s)
-//@   modifies s.nodes[id].Endpoints, entries(s.nodes[id].Endpoints)
+//@   modifies s.nodes[id].Endpoints, entries(remoteMap(s, id))
 //@   ensures[result] result == (id != s.localID && id in s.nodes)
 //@   ensures[count] result ==> epHas(s.nodes[id], endpointID) && s.nodes[id].Endpoints[endpointID] == listeners
 //@   ensures[others] forall e string :: e != endpointID || !result ==> epHas(s.nodes[id], e) == old(epHas(s.nodes[id], e)) && epCount(s.nodes[id], e) == old(epCount(s.nodes[id], e))
@@ -165,13 +171,16 @@ package cluster
 //@   serves C04 C20
 //@   requires[guard] held(State.mu)
 //@   requires[inv] stInv(s)
-//@   modifies entries(s.nodes[id].Endpoints)
+//@   modifies entries(remoteMap(s, id))
 //@   ensures[result] result == (id != s.localID && id in s.nodes)
 //@   ensures[gone] result ==> !epHas(s.nodes[id], endpointID)
 //@   ensures[others] forall e string :: e != endpointID || !result ==> epHas(s.nodes[id], e) == old(epHas(s.nodes[id], e)) && epCount(s.nodes[id], e) == old(epCount(s.nodes[id], e))
 //@   ensures[inv] stInv(s)
 
 //@ contract (*State).UpdateRemoteEndpoint
+//@   ensures[inv] stInv(s)
+//@   ensures[maps] forall o string :: o in s.nodes ==> s.nodes[o].Endpoints == old(s.nodes[o].Endpoints) || fresh(s.nodes[o].Endpoints)
+//@   modifies s.nodes[id].Endpoints, entries(remoteMap(s, id))
 //@   serves C04 C20
 //@   opt dyncall RemoteEndpointSubscriber
 //@   ensures[result] result == (id != s.localID && id in s.nodes)
@@ -181,6 +190,8 @@ package cluster
 //@   loop 1 invariant[unlocked] !held(State.mu)
 
 //@ contract (*State).RemoveRemoteEndpoint
+//@   ensures[inv] stInv(s)
+//@   modifies entries(remoteMap(s, id))
 //@   serves C04 C20
 //@   opt dyncall RemoteEndpointSubscriber
 //@   ensures[result] result == (id != s.localID && id in s.nodes)
@@ -190,6 +201,7 @@ package cluster
 //@   loop 1 invariant[unlocked] !held(State.mu)
 
 //@ contract (*State).Node
+//@   ensures[inv] stInv(s)
 //@   serves C04 C20
 //@   ensures[known] result1 == (id in s.nodes)
 //@   ensures[copy] result1 ==> result0 != nil && fresh(result0)
